@@ -521,4 +521,176 @@ theorem validate_expr_eq_meaning (g : Grammar) (sh : Shell) (v : Valid) (h : val
     · obtain ⟨spans, he⟩ := collectPlain_dup (plainDefs g) [] (.inr hnd)
       rw [he] at h; cases h
 
+
+/-! ### the position at the joining node is all that distinguishes `meaningAt` from `meaning` -/
+
+theorem meaningAt_cases (g : Grammar) (sh : Shell) :
+    (∀ sp, Spec.meaningAt sp g sh = Spec.meaning g sh) ∨ (∃ X, ∀ sp, Spec.meaningAt sp g sh = .alt X sp) := by
+  unfold Spec.meaning Spec.meaningAt Spec.topOf
+  cases hc : Spec.callBodies g with
+  | nil =>
+    right
+    exact ⟨_, fun sp => by simp [ExprL.ofList, Spec.distr, Spec.distrAlt, Spec.expand, Spec.words, Spec.label]; rfl⟩
+  | cons e rest =>
+    cases rest with
+    | nil => left; intro sp; rfl
+    | cons e2 rest2 =>
+      right
+      exact ⟨_, fun sp => by simp [Spec.distr, Spec.expand, Spec.words, Spec.label]; rfl⟩
+
+theorem names_meaningAt (sp : Span) (g : Grammar) (sh : Shell) :
+    Spec.names (Spec.meaningAt sp g sh) = Spec.names (Spec.meaning g sh) := by
+  rcases meaningAt_cases g sh with h | ⟨X, h⟩
+  · rw [h]
+  · have h2 : Spec.meaning g sh = Spec.meaningAt default g sh := rfl
+    rw [h2, h sp, h default]
+    simp [Spec.names]
+
+/-! ### the undefined names -/
+
+theorem insert_keys_sub {α} (m : AList α) (k : String) (v : α) (k' : String)
+    (h : k' ∈ (m.insert k v).map (·.1)) : k' ∈ m.map (·.1) ∨ k' = k := by
+  unfold AList.insert at h
+  by_cases hc : m.contains k = true
+  · simp only [hc, if_true] at h
+    have hkeys : (m.map fun p => if p.1 == k then (k, v) else p).map (·.1) = m.map (·.1) := by
+      rw [List.map_map]
+      apply List.map_congr_left
+      intro p _
+      by_cases hp : p.1 = k
+      · simp [hp]
+      · simp [hp]
+    rw [hkeys] at h
+    exact .inl h
+  · have hc' : m.contains k = false := by simpa using hc
+    simp only [hc', Bool.false_eq_true, if_false, List.map_append, List.mem_append] at h
+    rcases h with h | h
+    · exact .inl h
+    · right; simpa using h
+
+mutual
+theorem refsAcc_keys_sub : ∀ (e : Expr) (acc : AList Span) (k : String),
+    k ∈ (refsAcc e acc).map (·.1) → k ∈ acc.map (·.1) ∨ k ∈ Spec.names e
+  | .term .., acc, k, h => by left; simpa [refsAcc] using h
+  | .cmd .., acc, k, h => by left; simpa [refsAcc] using h
+  | .dd c d s, acc, k, h => by left; simpa [refsAcc] using h
+  | .nonterm n l s, acc, k, h => by
+    simp only [refsAcc] at h
+    rcases insert_keys_sub acc n s k h with h | h
+    · exact .inl h
+    · right; simp [Spec.names, h]
+  | .sub c l s, acc, k, h => by
+    simp only [refsAcc] at h; simpa [Spec.names] using refsAcc_keys_sub c acc k h
+  | .opt c s, acc, k, h => by
+    simp only [refsAcc] at h; simpa [Spec.names] using refsAcc_keys_sub c acc k h
+  | .many1 c s, acc, k, h => by
+    simp only [refsAcc] at h; simpa [Spec.names] using refsAcc_keys_sub c acc k h
+  | .seq cs s, acc, k, h => by
+    simp only [refsAcc] at h; simpa [Spec.names] using refsAccL_keys_sub cs acc k h
+  | .alt cs s, acc, k, h => by
+    simp only [refsAcc] at h; simpa [Spec.names] using refsAccL_keys_sub cs acc k h
+  | .fb cs s, acc, k, h => by
+    simp only [refsAcc] at h; simpa [Spec.names] using refsAccL_keys_sub cs acc k h
+theorem refsAccL_keys_sub : ∀ (es : ExprL) (acc : AList Span) (k : String),
+    k ∈ (refsAccL es acc).map (·.1) → k ∈ acc.map (·.1) ∨ k ∈ Spec.namesL es
+  | .nil, acc, k, h => by left; simpa [refsAccL] using h
+  | .cons e es, acc, k, h => by
+    simp only [refsAccL] at h
+    simp only [Spec.namesL, List.mem_append]
+    rcases refsAccL_keys_sub es _ k h with h | h
+    · rcases refsAcc_keys_sub e acc k h with h | h
+      · exact .inl h
+      · exact .inr (.inl h)
+    · exact .inr (.inr h)
+end
+
+mutual
+theorem label_noDD : ∀ (e : Expr) (lvl : Nat), NoDD e = true → NoDD (Spec.label e lvl) = true
+  | .term .., _, _ => by simp [Spec.label, NoDD]
+  | .cmd .., _, _ => by simp [Spec.label, NoDD]
+  | .nonterm .., _, _ => by simp [Spec.label, NoDD]
+  | .dd .., _, h => by simp [NoDD] at h
+  | .sub c l s, lvl, h => by simp only [Spec.label, NoDD] at h ⊢; exact label_noDD c lvl h
+  | .opt c s, lvl, h => by simp only [Spec.label, NoDD] at h ⊢; exact label_noDD c lvl h
+  | .many1 c s, lvl, h => by simp only [Spec.label, NoDD] at h ⊢; exact label_noDD c lvl h
+  | .seq cs s, lvl, h => by simp only [Spec.label, NoDD] at h ⊢; exact labelL_noDD cs lvl h
+  | .alt cs s, lvl, h => by simp only [Spec.label, NoDD] at h ⊢; exact labelL_noDD cs lvl h
+  | .fb cs s, lvl, h => by simp only [Spec.label, NoDD] at h ⊢; exact labelFb_noDD cs 0 h
+theorem labelL_noDD : ∀ (es : ExprL) (lvl : Nat), NoDDL es = true → NoDDL (Spec.labelL es lvl) = true
+  | .nil, _, _ => by simp [Spec.labelL, NoDDL]
+  | .cons e es, lvl, h => by
+    simp only [NoDDL, Bool.and_eq_true] at h
+    simp only [Spec.labelL, NoDDL, Bool.and_eq_true]
+    exact ⟨label_noDD e lvl h.1, labelL_noDD es lvl h.2⟩
+theorem labelFb_noDD : ∀ (es : ExprL) (i : Nat), NoDDL es = true → NoDDL (Spec.labelFb es i) = true
+  | .nil, _, _ => by simp [Spec.labelFb, NoDDL]
+  | .cons e es, i, h => by
+    simp only [NoDDL, Bool.and_eq_true] at h
+    simp only [Spec.labelFb, NoDDL, Bool.and_eq_true]
+    exact ⟨label_noDD e i h.1, labelFb_noDD es (i + 1) h.2⟩
+end
+
+theorem meaningAt_noDD (sp : Span) (g : Grammar) (sh : Shell) : NoDD (Spec.meaningAt sp g sh) = true := by
+  unfold Spec.meaningAt
+  simp only
+  apply label_noDD
+  apply words_noDD
+  apply (expand_noDD sh g _).1
+  rw [← distr_eq_spec]
+  exact distr_noDD _ none
+
+theorem finishValidate_undefined (g : Grammar) (sh : Shell) (command : String) (defs0 : AList (Span × Expr))
+    (specs : AList UserSpec) (fbs : AList String) (v : Valid)
+    (h : finishValidate g sh command defs0 specs fbs = .ok v) : v.undefined = refs v.expr := by
+  unfold finishValidate at h
+  simp only at h
+  split at h
+  · cases h
+  · split at h
+    · cases h
+    · cases h
+    · simp only [Outcome.ok.injEq] at h
+      subst h
+      rfl
+
+theorem validate_undefined (g : Grammar) (sh : Shell) (v : Valid) (h : validate g sh = .ok v) :
+    v.undefined = refs v.expr := by
+  unfold validate at h
+  cases hcmd : commandOf g with
+  | err c s => rw [hcmd] at h; cases h
+  | crash s => rw [hcmd] at h; cases h
+  | ok command =>
+    rw [hcmd] at h
+    simp only at h
+    cases hcp : collectPlain (plainDefs g) [] with
+    | err c s => rw [hcp] at h; cases h
+    | crash s => rw [hcp] at h; cases h
+    | ok defs0 =>
+      rw [hcp] at h
+      simp only at h
+      cases hgs : getSpecializations g sh with
+      | err c s => rw [hgs] at h; cases h
+      | crash s => rw [hgs] at h; cases h
+      | ok r =>
+        rw [hgs] at h
+        exact finishValidate_undefined g sh command defs0 r.1 r.2 v h
+
+/-- **The names the model reports as undefined are exactly those of the specification** (`_`, the
+deliberate "any word", is left out when the warnings are printed). -/
+theorem validate_undefined_eq (g : Grammar) (sh : Shell) (v : Valid) (h : validate g sh = .ok v) (n : String) :
+    (n ∈ v.undefined.map (·.1) ∧ n ≠ "_") ↔ n ∈ Spec.undefinedNames sh g := by
+  rw [validate_undefined g sh v h, validate_expr_eq_meaning g sh v h]
+  unfold Spec.undefinedNames
+  rw [List.mem_eraseDups, List.mem_filter, ← names_meaningAt (topSpan g) g sh]
+  have hiff : n ∈ (refs (Spec.meaningAt (topSpan g) g sh)).map (·.1) ↔ n ∈ Spec.names (Spec.meaningAt (topSpan g) g sh) := by
+    constructor
+    · intro hm
+      rcases refsAcc_keys_sub _ [] n hm with h1 | h1
+      · cases h1
+      · exact h1
+    · intro hm
+      exact refsAcc_keys _ [] n (meaningAt_noDD _ g sh) (.inr hm)
+  rw [hiff]
+  simp
+
 end Complgen.Check
